@@ -242,7 +242,7 @@ def o_iter(case):
 
 @st.composite
 def s_iter(draw, tier):
-    items = draw(st.lists(streams.adversarial_items("small"), min_size=1, max_size=10))
+    items = streams.flatten(draw(st.lists(streams.adversarial_items("small"), min_size=1, max_size=10)))
     kind = draw(st.sampled_from(["scripted", "scripted", "bytesio"]))
     return {
         "items": items,
